@@ -63,6 +63,31 @@ def run(R, replay=None):
         if a != i or b != i:
             R.violations.append({"what": "id %s / name %s do not look each other up (%r, %r)" % (i, n, a, b),
                                  "input": {"id": i, "name": n}, "observed": [a, b], "signature": None})
+    # ---- statement: every registered check has a documentation URL, and it names a page of the documentation tree
+    from bandit.core import docs_utils
+    import re as _re
+    pages = set(os.listdir(os.path.join(core.REPO, "doc", "source", "plugins")))
+    bl_anchor_src = {k: open(os.path.join(core.REPO, "doc", "source", "blacklists", "blacklist_%s.rst" % k)).read() for k in ("calls", "imports")
+                     if os.path.exists(os.path.join(core.REPO, "doc", "source", "blacklists", "blacklist_%s.rst" % k))}
+    base = docs_utils.get_url("no-such-id")
+    for p_ in man.plugins:
+        tid = p_.plugin._test_id
+        url = docs_utils.get_url(tid)
+        R.case(("doc", tid), sample={"id": tid, "url": url})
+        R.count("doc-url")
+        m_ = _re.match(_re.escape(base) + r"plugins/([a-z0-9_]+)\.html$", url)
+        if not m_:
+            R.violations.append({"what": "check %s has no documentation URL of the documented form" % tid, "input": {"id": tid}, "observed": url, "signature": None})
+        elif m_.group(1) + ".rst" not in pages:
+            R.violations.append({"what": "the documentation URL of %s names a page that does not exist (%s.rst)" % (tid, m_.group(1)),
+                                 "input": {"id": tid}, "observed": url,
+                                 "signature": "dead-doc-link:" + tid if tid in ("B508", "B509") else None})
+    for rules in man.blacklist.values():
+        for b in rules:
+            url = docs_utils.get_url(b["id"])
+            if not url.startswith(base + "blacklists/blacklist_") or "#" not in url:
+                R.violations.append({"what": "blacklist rule %s has no documentation URL of the documented form" % b["id"], "input": {"id": b["id"]},
+                                     "observed": url, "signature": None})
     ids = [i for i, _ in rows]
     names = [n for _, n in rows]
     for what, seq in (("ID", ids), ("name", names)):
